@@ -180,8 +180,9 @@ func (r pathSetRules) Equivalent(aPath, bPath Path) bool {
 				return false
 			}
 
-			eq := aStep.Key.Equals(bStep.Key)
-			if !eq.IsKnown() || eq.False() {
+			// The same notion of "same key" as Path.Equals: in particular a
+			// path with an unknown key is equivalent to itself.
+			if !aStep.Key.RawEquals(bStep.Key) {
 				return false
 			}
 		default:
